@@ -18,6 +18,11 @@ reference semantics = Spec/Py.lean, theorems = Properties/C08.lean):
     real generators reported); both are compared on every case.
   * `Spec.Py` (subclass closure, C3 linearisation) is compared with real CPython class creation on the class
     tables of the generated packages and on random tables.
+  * the two decisions behind "the type a selection set is evaluated for" are also compared directly and exhaustively per
+    schema: `_get_inline_fragment_root_type(cond, root)` on every pair of composite type names, `_unpack_fragment(f, root)` on
+    every fragment x every composite type / no root (driver op `decisions`).
+  * a failure the oracle finds is a KNOWN finding only inside the region the MODEL computes for that input (the triggers are
+    the hypotheses of `C08_partial`); what the implementation under test reports about itself never excuses it.
 
 Oracle (the property itself, independent of the model): the real CLI entry generates the package (mixin classes
 provided through `files_to_include`), it is imported, every operation is driven through httpx.MockTransport with
@@ -86,7 +91,7 @@ DEFAULT_FEATURES: Dict[str, float] = {
     "alias": 0.12,
     "inline_obj": 0.45,  # inline fragment on an object member at an abstract position
     "inline_same": 0.08,  # inline fragment on the position's own type
-    "inline_super": 0.08,  # inline fragment on an interface of the object position
+    "inline_super": 0.14,  # inline fragment on an interface of the object position
     "spread_in_inline": 0.5,  # a mixin spread inside an inline fragment body
     "spread_same": 0.55,  # spread of a fragment on the position's own type (the qualifying case)
     "spread_same_twice": 0.35,  # a second one (diamonds, two bases)
@@ -100,7 +105,7 @@ DEFAULT_FEATURES: Dict[str, float] = {
     "spread_same_carrier": 0.12,  # object position / fragment on an object spreads a fragment on the SAME type made of inline fragments
     "carrier_in_fragment": 0.6,  # the union / same-type carriers above also inside fragment definitions (bases that spread carriers)
     "carrier_in_carrier": 0.15,  # a carrier on an abstract type spreads another carrier on the same type
-    "spread_in_super_inline": 0.4,  # `... on Iface { ...FragOnIface }` at an object position (the fragment is inherited)
+    "spread_in_super_inline": 0.6,  # `... on Iface { ...FragOnIface }` at an object position (the fragment is inherited)
     "carrier_in_iface_base": 0.0,  # a base fragment on an INTERFACE spreads a carrier (sub-type classes appear: C08-F1/F4 region)
     "nested_spread": 0.45,  # fragments spreading fragments (chains)
     "reuse": 0.5,  # reuse an existing fragment instead of making a new one (sharing, diamonds)
@@ -372,9 +377,14 @@ class FragGraphGen:
             out.append(self.spread(n1))
             taken |= {n1} | self.ancestors(n1)
             if self.p("base_and_derived"):
+                # a fragment together with one OR SEVERAL of its own ancestors (a whole chain spread at one position)
                 anc = sorted(self.ancestors(n1))
                 if anc:
-                    out.append(self.spread(self.rng.choice(anc)))
+                    k = 1
+                    while k < len(anc) and self.rng.random() < 0.5:
+                        k += 1
+                    for a in self.rng.sample(anc, k):
+                        out.append(self.spread(a))
             if self.p("spread_same_twice"):
                 # a second base; never an ancestor / descendant of the first (that is the C08-F3 region)
                 avoid = set(taken) | {n for n in self.by_type.get(type_name, []) if n1 in self.ancestors(n)}
@@ -601,6 +611,91 @@ def gen_case(rng: random.Random, features: Optional[Dict[str, float]] = None, la
             "stats": {"ops": len(ops), "frags": len(frags)}}
 
 
+# ---- a dense family for "bases vs. C3": every sub-DAG of fragments on one object type, spread together at one position ----
+
+MRO_SDL = ("type Query {\n  user: User\n  users: [User!]!\n  node: Node\n}\n\ninterface Node {\n  id: ID!\n  label: String\n}\n\n"
+           "type User implements Node {\n  id: ID!\n  label: String\n  name: String\n  email: String\n  age: Int\n  bio: String\n  city: String\n}\n")
+MRO_FIELDS = ["name", "email", "age", "bio", "city", "id", "label"]
+MRO_NAMES = ["Alpha", "beta", "Core", "delta_view", "Extra", "full", "Gamma", "head_part", "Info", "joined", "Zed", "aa", "Mid", "omega"]
+
+
+def gen_mro_case(rng: random.Random, label: str = "mro") -> Dict[str, Any]:
+    """k fragments on `User` forming a random DAG (fragment i spreads fragment j only for i < j: chains, diamonds, shared
+    ancestors, isolated ones), named by a random assignment (so the alphabetical order of the names is independent of who derives
+    from whom), some on the interface `Node` reached through `... on Node { ... }`; operations spread a random subset of them
+    TOGETHER at one position (directly, or partly inside `... on User` / `... on Node`), optionally with @mixin on the field.
+    The model decides which of these lie in the C08-F3 region (alphabetical base order CPython cannot linearise)."""
+    k = rng.randint(2, 5)
+    names = rng.sample(MRO_NAMES, k)
+    on_iface = [rng.random() < 0.15 for _ in range(k)]
+    dens = rng.choice([0.3, 0.5, 0.8])
+    frags: List[Dict[str, Any]] = []
+    for i in range(k):
+        on = "Node" if on_iface[i] else "User"
+        fld = rng.choice(["id", "label"]) if on_iface[i] else MRO_FIELDS[i % len(MRO_FIELDS)]
+        sel: List[Dict[str, Any]] = [{"k": "field", "alias": None, "name": fld, "args": [], "dirs": [], "sel": []}]
+        for j in range(i + 1, k):
+            if rng.random() < dens:
+                sp = {"k": "spread", "name": names[j], "dirs": []}
+                if on_iface[j] and not on_iface[i]:
+                    sel.append({"k": "inline", "on": "Node", "dirs": [], "sel": [sp]})  # makes fragment i a carrier (unpacked)
+                elif on_iface[j] == on_iface[i]:
+                    sel.append(sp)
+        rng.shuffle(sel)
+        frags.append({"name": names[i], "on": on, "sel": sel, "dirs": []})
+    mixins: List[Tuple[str, str]] = []
+    ops = []
+    for oi, opname in enumerate(rng.sample(OP_NAMES, rng.randint(1, 2))):
+        fld = rng.choice(["user", "users"])
+        chosen = [i for i in range(k) if rng.random() < 0.7] or [0]
+        direct: List[Dict[str, Any]] = []
+        in_own: List[Dict[str, Any]] = []
+        in_node: List[Dict[str, Any]] = []
+        for i in chosen:
+            sp = {"k": "spread", "name": names[i], "dirs": []}
+            if on_iface[i]:
+                in_node.append(sp)
+            elif rng.random() < 0.12:
+                in_own.append(sp)
+            else:
+                direct.append(sp)
+        sel = [{"k": "field", "alias": None, "name": "id", "args": [], "dirs": [], "sel": []}] + direct
+        if in_own:
+            sel.append({"k": "inline", "on": "User", "dirs": [], "sel": in_own})
+        if in_node:
+            sel.append({"k": "inline", "on": "Node", "dirs": [], "sel": in_node})
+        rng.shuffle(sel)
+        dirs = []
+        if rng.random() < 0.3:
+            cls = f"Mixin{oi + 1}"
+            mixins.append((MIXIN_MODULES[oi % 2], cls))
+            dirs = [{"name": "mixin", "from": "." + MIXIN_MODULES[oi % 2], "import": cls}]
+        ops.append({"kind": "query", "name": opname, "vars": [], "dirs": [],
+                    "sel": [{"k": "field", "alias": None, "name": fld, "args": [], "dirs": dirs, "sel": sel}]})
+    order = list(range(len(ops) + len(frags)))
+    rng.shuffle(order)
+    text = render_case_document(ops, frags, order)
+    calls = [{"op": o["name"], "seed": rng.randint(0, 10**6)} for o in ops]
+    return {"id": f"{label}-{common.stable_hash(text)[:10]}", "sdl": MRO_SDL, "server_sdl": MIXIN_DECL + MRO_SDL, "queries": text,
+            "mixins": mixins, "calls": calls, "malformed": [], "null_p": 0.0, "stats": {"ops": len(ops), "frags": len(frags)}}
+
+
+def make_mro_cases(rng: random.Random, n: int, label: str = "mro") -> List[Dict[str, Any]]:
+    out: List[Dict[str, Any]] = []
+    seen: Set[str] = set()
+    tries = 0
+    while len(out) < n and tries < n * 4:
+        tries += 1
+        c = gen_mro_case(rng, label)
+        if c["id"] in seen:
+            continue
+        ok, _ = valid_case(c)
+        if ok:
+            seen.add(c["id"])
+            out.append(c)
+    return out
+
+
 def _all_dir_holders(ops: List[Dict[str, Any]], frags: List[Dict[str, Any]]) -> List[List[Dict[str, Any]]]:
     out: List[List[Dict[str, Any]]] = []
 
@@ -732,6 +827,7 @@ def observe_package(root: Path, case: Dict[str, Any]) -> Dict[str, Any]:
     except (AttributeError, ImportError, TypeError) as e:
         return {"line": line, "impl": {"observer": f"{type(e).__name__}: {e}"}}
 
+    decisions = _observe_decisions(schema, schema_json, doc_json, frag_nodes, snake)
     ops_ir: List[Dict[str, Any]] = []
     failed: Optional[Dict[str, Any]] = None
     for op in op_nodes:
@@ -796,7 +892,30 @@ def observe_package(root: Path, case: Dict[str, Any]) -> Dict[str, Any]:
             impl = {"ops": ops_ir, "excluded": excluded, "fragments": fragments_ir, "trigger": trigger}
     except (AttributeError, ImportError, TypeError) as e:
         return {"line": line, "impl": {"observer": f"{type(e).__name__}: {e}"}}
-    return {"line": line, "impl": impl}
+    return {"line": line, "impl": impl, "decisions": decisions}
+
+
+def _observe_decisions(schema: Any, schema_json: Any, doc_json: Dict[str, Any], frag_nodes: List[Any], snake: bool) -> Dict[str, Any]:
+    """the two decisions behind 'the type a selection set is evaluated for', asked of the REAL methods directly and for every
+    argument the schema offers: `_get_inline_fragment_root_type(cond, root)` for every pair of composite type names (plus a
+    name the schema does not define) and `_unpack_fragment(fragment, root)` for every fragment x every composite type / no root"""
+    from graphql import is_composite_type
+
+    names = sorted(n for n, t in schema.type_map.items() if is_composite_type(t) and not n.startswith("__"))
+    pairs = [[c, r] for c in names + ["Undefined0"] for r in names + ["Undefined0"]]
+    roots: List[Optional[str]] = [None] + names
+    dline = {"op": "decisions", "schema": schema_json, "fragments": doc_json["fragments"], "scalars": [], "snake": snake,
+             "pairs": pairs, "roots": roots}
+    try:
+        from ariadne_codegen.client_generators.result_types import ResultTypesGenerator
+
+        g = ResultTypesGenerator.__new__(ResultTypesGenerator)
+        g.schema = schema
+        inl = [g._get_inline_fragment_root_type(c, r) for c, r in pairs]
+        unp = [[f.name.value, [bool(g._unpack_fragment(f, schema.type_map[r] if r is not None else None)) for r in roots]] for f in frag_nodes]
+    except (AttributeError, ImportError, TypeError, KeyError) as e:
+        return {"line": dline, "impl": {"observer": f"{type(e).__name__}: {e}"}}
+    return {"line": dline, "impl": {"inlineRoot": inl, "unpack": unp}}
 
 
 def _tb() -> str:
@@ -926,6 +1045,7 @@ def corr_packages(ctx: Ctx, st: Optional[LeanStatus], res: Result, cases: List[D
     model: Optional[List[Any]] = None
     if st is not None and st.driver_ok and lines:
         model = common.run_driver(PROP, lines, chunk=200)
+    corr_decisions(st, res, cases, [o.get("decisions") if status == "ok" else None for status, o in obs], label)
     mro_lines, mro_expect = [], []
     for k, i in enumerate(idx):
         impl = irs[i]
@@ -964,6 +1084,10 @@ def corr_packages(ctx: Ctx, st: Optional[LeanStatus], res: Result, cases: List[D
             res.mismatches.append(Mismatch("trigger:" + TRIG_F1, {"case": slim(case)}, trig, m_trig))
         if m_mro is not None and bool(m_mro) != bool(conflict):
             res.mismatches.append(Mismatch("trigger:" + TRIG_F3, {"case": slim(case)}, conflict, m_mro))
+        if m_trig is not None and m_mro is not None and m_sib is not None:
+            # the finding regions are predicates on the INPUT, computed by the model (the hypotheses of C08_partial); a failure
+            # is classified with these, never with what the implementation under test reports about itself
+            impl["model_triggers"] = {TRIG_F1: bool(m_trig), TRIG_F3: bool(m_mro), TRIG_F4: bool(m_sib)}
     if st is not None and st.driver_ok and mro_lines:
         got = common.run_driver(PROP, mro_lines, chunk=2000)
         for (case, mod, table, want), g in zip(mro_expect, got):
@@ -971,6 +1095,39 @@ def corr_packages(ctx: Ctx, st: Optional[LeanStatus], res: Result, cases: List[D
             if not common.same_json(want, g, ordered=True):
                 res.mismatches.append(Mismatch("Spec.Py.mro", {"table": table}, want, g))
     return irs
+
+
+def corr_decisions(st: Optional[LeanStatus], res: Result, cases: List[Dict[str, Any]], decs: List[Optional[Dict[str, Any]]], label: str) -> None:
+    """`_get_inline_fragment_root_type` / `_unpack_fragment` of the real generator vs `inlineFragmentRootType` / `unpackFragment`
+    of the model, on every argument each schema offers (exhaustive per case)"""
+    todo = [(c, d) for c, d in zip(cases, decs) if d is not None]
+    for c, d in todo:
+        if "observer" in d["impl"]:
+            res.mismatches.append(Mismatch("decisions", {"case": slim(c)}, "observer: " + d["impl"]["observer"], None))
+    todo = [(c, d) for c, d in todo if "observer" not in d["impl"]]
+    if st is None or not st.driver_ok or not todo:
+        return
+    got = common.run_driver(PROP, [d["line"] for _, d in todo], chunk=200)
+    for (case, d), m in zip(todo, got):
+        pairs, roots, impl = d["line"]["pairs"], d["line"]["roots"], d["impl"]
+        res.seen(["decisions", case["sdl"], sorted(n for n, _ in impl["unpack"])], nontrivial=True)
+        bad = 0
+        m_inl = m.get("inlineRoot") if isinstance(m, dict) else None
+        if not isinstance(m_inl, list) or len(m_inl) != len(pairs):
+            res.mismatches.append(Mismatch("decision:inline-fragment-root-type", {"case": slim(case)}, "(answers)", m))
+            continue
+        for (cond, root), a, b in zip(pairs, impl["inlineRoot"], m_inl):
+            res.count(f"{label}:decision:inline-root:" + ("ignored" if a is None else ("own-type" if cond == root else "implemented-interface")))
+            if a != b and bad < 3:
+                bad += 1
+                res.mismatches.append(Mismatch("decision:inline-fragment-root-type", {"case": slim(case), "type_condition": cond, "root_type": root}, a, b))
+        mu = {n: row for n, row in (m.get("unpack") or [])}
+        for n, row in impl["unpack"]:
+            res.count(f"{label}:decision:unpack", len(row))
+            if mu.get(n) != row and bad < 6:
+                bad += 1
+                k = next((i for i, (x, y) in enumerate(zip(row, mu.get(n) or [])) if x != y), 0)
+                res.mismatches.append(Mismatch("decision:unpack-fragment", {"case": slim(case), "fragment": n, "root_type": roots[k]}, row, mu.get(n)))
 
 
 def slim(case: Dict[str, Any]) -> Dict[str, Any]:
@@ -1097,7 +1254,13 @@ class _Walker:
 
     `static` = the parent type GraphQL validation assigns to a selection set, `narrow` = the type it is
     evaluated for once enclosing type conditions that are *supertypes* of the position are discounted.
-    A spread qualifies only where both readings agree (never demanding more than the property states)."""
+    A spread qualifies only where both readings agree (never demanding more than the property states), with one
+    reading decision: the selection set written directly inside an INLINE fragment whose type condition is an interface the
+    position's OBJECT type implements (`account { ... on Node { ...NodeId } }`) is evaluated for that interface - the type
+    condition the author wrote is exactly the fragment's type, the object is a Node, and a named fragment on `Node` spread
+    there is "defined on exactly the type that selection set is evaluated for" (Properties/C08.lean section 1c:
+    `interface_fragment_inside_inline_is_a_base`).  The selection set of a NAMED fragment on a supertype that is unpacked at
+    an object position stays evaluated for the object type (nothing is demanded there)."""
 
     def __init__(self, schema: Any, doc: Any, fragmod: Any, all_mixins: Set[str]) -> None:
         from graphql import FragmentDefinitionNode
@@ -1109,6 +1272,7 @@ class _Walker:
         self.problems: List[Dict[str, Any]] = []
         self.checks = 0
         self.mixin_checks = 0
+        self.inline_iface_checks = 0  # qualifying spreads judged inside `... on <implemented interface>` at an object position
         self.visited: Dict[int, List[Any]] = {}  # id(obj) -> [obj, expected mixin names, times reached]
 
     def applies(self, cond: str, rt: str) -> bool:
@@ -1130,15 +1294,24 @@ class _Walker:
             return cond  # narrower than the position
         return narrow  # a supertype of the position (or unrelated): the position's type stays
 
-    def qualifies(self, f: Any, static: str, narrow: str) -> bool:
-        from graphql import GraphQLUnionType, InlineFragmentNode
+    def qualifies(self, f: Any, static: str, narrow: str, inline: bool = False) -> bool:
+        from graphql import GraphQLObjectType, GraphQLUnionType, InlineFragmentNode
 
         on = f.type_condition.name.value
-        if on != static or on != narrow:
+        if on != static:
             return False
+        via_inline = False
+        if on != narrow:
+            nt = self.schema.type_map.get(narrow)
+            if not (inline and isinstance(nt, GraphQLObjectType) and on in {i.name for i in nt.interfaces}):
+                return False
+            via_inline = True
         if isinstance(self.schema.type_map.get(on), GraphQLUnionType):
             return False
-        return not any(isinstance(s, InlineFragmentNode) for s in f.selection_set.selections)
+        ok = not any(isinstance(s, InlineFragmentNode) for s in f.selection_set.selections)
+        if ok and via_inline:
+            self.inline_iface_checks += 1
+        return ok
 
     def mixins_of(self, node: Any) -> List[str]:
         out = []
@@ -1154,7 +1327,7 @@ class _Walker:
         rec[1] |= set(expected)
         rec[2] += 1
 
-    def walk(self, selset: Any, static: str, narrow: str, rt: str, obj: Any, data: Dict[str, Any], path: str) -> None:
+    def walk(self, selset: Any, static: str, narrow: str, rt: str, obj: Any, data: Dict[str, Any], path: str, inline: bool = False) -> None:
         from graphql import FieldNode, FragmentSpreadNode, InlineFragmentNode
         from pydantic import BaseModel
 
@@ -1164,7 +1337,7 @@ class _Walker:
                 cond = f.type_condition.name.value
                 if not self.applies(cond, rt):
                     continue
-                if self.qualifies(f, static, narrow):
+                if self.qualifies(f, static, narrow, inline):
                     self.checks += 1
                     cls = getattr(self.fragmod, pascal(f.name.value), None) if self.fragmod is not None else None
                     where = {"path": path, "fragment": f.name.value, "class": type(obj).__name__}
@@ -1182,7 +1355,7 @@ class _Walker:
             elif isinstance(s, InlineFragmentNode):
                 cond = s.type_condition.name.value if s.type_condition else static
                 if self.applies(cond, rt):
-                    self.walk(s.selection_set, cond, self.narrower(cond, narrow), rt, obj, data, path + f"/...on {cond}")
+                    self.walk(s.selection_set, cond, self.narrower(cond, narrow), rt, obj, data, path + f"/...on {cond}", inline=s.type_condition is not None)
             elif isinstance(s, FieldNode) and s.selection_set is not None:
                 key = s.alias.value if s.alias else s.name.value
                 parent = self.schema.type_map.get(rt)
@@ -1314,6 +1487,7 @@ def oracle_child(root: Path, case: Dict[str, Any]) -> Dict[str, Any]:
         w.walk(opnode.selection_set, root_t, root_t, root_t, value, data, "$")
         w.finish()
         rec["checks"] = w.checks
+        rec["inline_iface_checks"] = w.inline_iface_checks
         rec["mixin_checks"] = w.mixin_checks
         rec["problems"] = w.problems[:10]
     out["calls"] = calls
@@ -1325,8 +1499,11 @@ def oracle_child(root: Path, case: Dict[str, Any]) -> Dict[str, Any]:
 def classify_failure(case: Dict[str, Any], ir: Dict[str, Any], obs: Dict[str, Any]) -> List[Tuple[str, Optional[str], str]]:
     """-> [(signature, trigger, detail)] for one judged package (empty = the property holds on it)"""
     out: List[Tuple[str, Optional[str], str]] = []
-    f1 = bool(ir.get("trigger"))
-    f3 = mro_conflict(ir) if ir else False
+    # the finding regions are predicates on the input, computed by the Lean model; what the implementation reports about itself
+    # is used only when the driver could not be asked (the build is broken)
+    mt = ir.get("model_triggers") if ir else None
+    f1 = mt[TRIG_F1] if mt else bool(ir.get("trigger"))
+    f3 = mt[TRIG_F3] if mt else (mro_conflict(ir) if ir else False)
     bad_names: Set[str] = set()
     if f1:
         inherited: Set[str] = set()
@@ -1359,7 +1536,7 @@ def classify_failure(case: Dict[str, Any], ir: Dict[str, Any], obs: Dict[str, An
             trig, sig = TRIG_F3, "import-error:inconsistent-mro"
         out.append((sig, trig, msg))
         return out
-    f4 = sibling_unpacks(ir, abstract_types(case)) if ir else False
+    f4 = mt[TRIG_F4] if mt else (sibling_unpacks(ir, abstract_types(case)) if ir else False)
     for p in obs.get("static_problems", []):
         out.append((p["problem"], None, json.dumps(p)[:300]))
     for c in obs.get("calls", []):
@@ -1386,6 +1563,8 @@ def oracle(ctx: Ctx, res: Result, cases: List[Dict[str, Any]], irs: List[Dict[st
         checks = sum(c.get("checks", 0) for c in o.get("calls", []))
         mchecks = sum(c.get("mixin_checks", 0) for c in o.get("calls", [])) + o.get("static_checks", 0)
         res.count(f"{label}:instance+validate checks", checks)
+        res.count(f"{label}:instance checks inside `... on <implemented interface>` at an object position",
+                  sum(c.get("inline_iface_checks", 0) for c in o.get("calls", [])))
         res.count(f"{label}:@mixin base checks", mchecks)
         res.seen(["oracle", case["sdl"], case["queries"]], nontrivial=checks > 0 or o.get("import") != "ok" or o.get("gen") != "ok")
         for sig, trig, detail in classify_failure(case, ir, o):
@@ -1506,8 +1685,16 @@ def replay_corpus(ctx: Ctx, st: Optional[LeanStatus], res: Result) -> None:
     res.merge(sub)
 
 
-def judge(ctx: Ctx, st: Optional[LeanStatus], res: Result, cases: List[Dict[str, Any]], label: str, n_oracle: int) -> None:
-    irs = corr_packages(ctx, st, res, cases, label)
+def judge(ctx: Ctx, st: Optional[LeanStatus], res: Result, cases: List[Dict[str, Any]], label: str, n_oracle: int,
+          quiet_corr: bool = False) -> None:
+    if quiet_corr:
+        # the search re-observes inputs whose disagreement is already on record: only counters and classifications are kept
+        sub = Result()
+        irs = corr_packages(ctx, st, sub, cases, label)
+        sub.mismatches = []
+        res.merge(sub)
+    else:
+        irs = corr_packages(ctx, st, res, cases, label)
     for case, ir in zip(cases, irs):
         if ir.get("fragments") and not deps_acyclic(ir):
             # the consequence of `NoFragmentCycles` that Lean derives (deps_acyclic_of_valid) does not hold on a validated document
@@ -1523,6 +1710,22 @@ def judge(ctx: Ctx, st: Optional[LeanStatus], res: Result, cases: List[Dict[str,
     oracle(ctx, res, [cases[i] for i in pick], [irs[i] for i in pick], label + ":oracle")
 
 
+def _smallest_first(res: Result) -> None:
+    """the replay file of a violation holds the first failure of its class: make that the smallest document"""
+    def size(f: Failure) -> int:
+        c = f.input.get("case") if isinstance(f.input, dict) else None
+        return len(c.get("queries", "")) if isinstance(c, dict) else 0
+
+    res.failures.sort(key=size)
+
+
+def budget3(ctx: Ctx, quick: int, boosted: int, thorough: int) -> int:
+    """quick tier / quick tier boosted by a changed fingerprint of a modelled function / thorough tier"""
+    if ctx.tier == "thorough":
+        return thorough
+    return boosted if ctx.boost else quick
+
+
 REGION_FEATURES = {"carrier_in_iface_base": 0.3, "reuse_conflicting": 0.35, "base_and_derived": 0.25, "abstract_in_mixin": 0.3, "mixin_operation": 0.4,
                    "mixin_malformed": 0.03}
 
@@ -1531,10 +1734,14 @@ def run(ctx: Ctx, st: Optional[LeanStatus]) -> Result:
     res = Result()
     res.rule = ("seeded fragment graphs over seeded schemas (chains, diamonds, fragments shared by operations, on objects/interfaces/unions, "
                 "with inline fragments, base fragments that spread such carriers (same type / interface / union; directly or through "
-                "another base), spreads inside inline fragments, unused) x @mixin on fields / fragment definitions / operations x shuffled definition orders, all "
-                "validated by graphql-core: (1) package IR of the real PackageGenerator/FragmentsGenerator vs the Lean driver incl. both "
-                "finding triggers; (2) Spec.Py (C3 MRO, subclass) vs CPython on the emitted class tables and on random tables; (3) the "
-                "property oracle on real imported packages driven through MockTransport. A package case is non-trivial when a fragments "
+                "another base), spreads inside inline fragments, unused) x @mixin on fields / fragment definitions / operations x shuffled definition orders, "
+                "plus a dense base-order family (every random DAG of 2-5 fragments on one object type / its interface under a random naming, random "
+                "subsets spread together at one position, partly inside `... on <own type>` / `... on <implemented interface>`, with @mixin), all "
+                "validated by graphql-core: (1) package IR of the real PackageGenerator/FragmentsGenerator vs the Lean driver incl. the three "
+                "finding triggers; (1b) the real _get_inline_fragment_root_type / _unpack_fragment vs the model on EVERY pair of composite type "
+                "names / every fragment x root type of each case's schema; (2) Spec.Py (C3 MRO, subclass) vs CPython on the emitted class tables "
+                "and on random tables; (3) the property oracle on real imported packages driven through MockTransport; its failures are classified "
+                "with the finding regions the MODEL computes for the input. A package case is non-trivial when a fragments "
                 "module is emitted, something is unpacked, or generation fails; an oracle case when at least one instance check ran")
     res.extra["fingerprints"] = common.fingerprints(ctx, FINGERPRINTS)
     engine.cleanup_scratch()
@@ -1542,12 +1749,37 @@ def run(ctx: Ctx, st: Optional[LeanStatus]) -> Result:
     ctx.log(f"corpus replayed: {res.witness_status} mismatches={len(res.mismatches)}")
     corr_spec_py(ctx, st, res)
     ctx.log(f"Spec.Py correspondence done: mismatches={len(res.mismatches)}")
-    cases = make_cases(ctx.sub_rng("default"), ctx.budget(400, 4000), None, "rand")
-    judge(ctx, st, res, cases, "default", ctx.budget(140, 1200))
+    findings = common.load_findings(PROP)
+
+    def in_hand() -> bool:
+        # quick tier only (its budget may have been boosted by a changed fingerprint): no further sampling once a failing input
+        # outside every finding region is in hand; the thorough tier always runs its whole budget
+        return ctx.tier != "thorough" and any(common.match_finding(f, findings) is None for f in res.failures)
+
+    def sliced(label: str, cases: List[Dict[str, Any]], n_oracle: int, step: int) -> None:
+        for k in range(0, len(cases), step):
+            if in_hand():
+                ctx.log(f"{label}: a failing input outside every finding region is in hand; sampling stops after {k} of {len(cases)} cases")
+                return
+            part = cases[k:k + step]
+            judge(ctx, st, res, part, label, max(1, n_oracle * len(part) // max(1, len(cases))))
+
+    sliced("default", make_cases(ctx.sub_rng("default"), budget3(ctx, 400, 1600, 4000), None, "rand"), budget3(ctx, 140, 520, 1200), 400)
     ctx.log(f"default region done: evaluations={res.evaluations} mismatches={len(res.mismatches)} failures={len(res.failures)}")
-    rcases = make_cases(ctx.sub_rng("regions"), ctx.budget(120, 1500), REGION_FEATURES, "region")
-    judge(ctx, st, res, rcases, "regions", ctx.budget(40, 300))
+    sliced("regions", make_cases(ctx.sub_rng("regions"), budget3(ctx, 120, 400, 1500), REGION_FEATURES, "region"), budget3(ctx, 40, 120, 300), 400)
     ctx.log(f"finding regions done: evaluations={res.evaluations} mismatches={len(res.mismatches)} failures={len(res.failures)}")
+    sliced("mro", make_mro_cases(ctx.sub_rng("mro"), budget3(ctx, 60, 240, 800), "mro"), budget3(ctx, 45, 180, 500), 400)
+    ctx.log(f"base-order family done: evaluations={res.evaluations} mismatches={len(res.mismatches)} failures={len(res.failures)}")
+    _smallest_first(res)
+    # what the directed search starts from if the tie broke (see `search`)
+    _STATE["st"] = st
+    seen_ids: Set[str] = set()
+    _STATE["disagreeing"] = []
+    for m in res.mismatches:
+        c = m.input.get("case") if isinstance(m.input, dict) else None
+        if m.trigger is None and isinstance(c, dict) and c.get("id") not in seen_ids and "queries" in c:
+            seen_ids.add(c["id"])
+            _STATE["disagreeing"].append(c)
     res.oracle_only += [
         "'that class alone validates the same payload' (fragment_class_validates, should-tier): needs the pydantic reference semantics of C01; judged only by FragClass.model_validate(sub_payload) on the real packages",
         "'the object returned is an instance': Lean proves the class statement lists the fragment class as a base (Spec.Py.IsSubclass); that pydantic returns an object of exactly that class at that position is observed (isinstance on returned objects)",
@@ -1562,12 +1794,55 @@ def run(ctx: Ctx, st: Optional[LeanStatus]) -> Result:
     return res
 
 
+# shapes the default distribution reaches rarely, turned up for the directed search
+DIRECTED_FEATURES = {"inline_same": 0.35, "inline_super": 0.5, "spread_in_inline": 0.8, "spread_in_super_inline": 0.9, "spread_same": 0.85,
+                     "spread_same_twice": 0.6, "nested_spread": 0.8, "reuse": 0.7, "mixin_field": 0.45, "mixin_fragment": 0.45,
+                     "mixin_twice": 0.4, "spread_iface_at_object": 0.3, "unused": 0.3}
+
+_STATE: Dict[str, Any] = {}
+
+
 def search(ctx: Ctx) -> Result:
+    """called when the tie broke (a proof obligation or a correspondence observation no longer checks): look for an input on
+    which the PROPERTY fails on the real code.  (1) the inputs the correspondence disagreed on, all of them through the oracle;
+    (2) directed families (shapes around what is modelled: inline fragments on the own type / an implemented interface with
+    spreads inside, several bases, @mixin next to fragment bases; the dense base-order family); (3) the default and the
+    finding-region distributions.  Failures are classified with the MODEL's finding regions whenever the driver still runs, so
+    an implementation that widened a region does not excuse itself."""
     res = Result()
+    st = _STATE.get("st")
+    st = st if (st is not None and st.driver_ok) else None
+    dis = list(_STATE.get("disagreeing") or [])[:80]
+    for c in dis:
+        c.setdefault("server_sdl", MIXIN_DECL + c["sdl"] if "directive @mixin" not in c["sdl"] else c["sdl"])
+    findings = common.load_findings(PROP)
+
+    def in_hand() -> bool:  # a failing input outside every finding region
+        return any(common.match_finding(f, findings) is None for f in res.failures)
+
+    if dis:
+        judge(ctx, st, res, dis, "search:disagreeing-inputs", len(dis) * 2, quiet_corr=True)
+        ctx.log(f"search: {len(dis)} disagreeing input(s) judged: failures={len(res.failures)}")
+        if in_hand():
+            _smallest_first(res)
+            return res
+    dcases = make_cases(ctx.sub_rng("search-directed"), 240, DIRECTED_FEATURES, "search-directed")
+    judge(ctx, st, res, dcases, "search:directed", 240, quiet_corr=True)
+    ctx.log(f"search: directed family judged: failures={len(res.failures)}")
+    if in_hand():
+        _smallest_first(res)
+        return res
+    mcases = make_mro_cases(ctx.sub_rng("search-mro"), 300, "search-mro")
+    judge(ctx, st, res, mcases, "search:mro", 300, quiet_corr=True)
+    ctx.log(f"search: base-order family judged: failures={len(res.failures)}")
+    if in_hand():
+        _smallest_first(res)
+        return res
     cases = make_cases(ctx.sub_rng("search"), 500, None, "search")
-    judge(ctx, None, res, cases, "search", 300)
+    judge(ctx, st, res, cases, "search", 300, quiet_corr=True)
     rcases = make_cases(ctx.sub_rng("search-regions"), 200, REGION_FEATURES, "search-region")
-    judge(ctx, None, res, rcases, "search-regions", 80)
+    judge(ctx, st, res, rcases, "search-regions", 80, quiet_corr=True)
+    _smallest_first(res)
     return res
 
 
